@@ -51,6 +51,7 @@ type World struct {
 	defIndex        map[string]*definer
 	GlobalInvs      []*GlobalInv
 	fnByConst       map[string]*ssa.Function
+	Aliases         map[string]string
 }
 
 type dtDecl struct {
@@ -185,6 +186,12 @@ func (w *World) LoadSpecs() error {
 		w.SpecFiles = append(w.SpecFiles, sf)
 	}
 	// index
+	w.Aliases = map[string]string{}
+	for _, sf := range w.SpecFiles {
+		for a, p := range sf.Imports {
+			w.Aliases[a] = p
+		}
+	}
 	for _, sf := range w.SpecFiles {
 		for _, f := range sf.Funcs {
 			if _, dup := w.SpecFuncs[f.Name]; dup {
@@ -428,7 +435,9 @@ func (w *World) ResolveType(te *TypeExpr, pkgName string) (SType, error) {
 			return SType{}, fmt.Errorf("type %s not found in package %s", te.Name, pkgName)
 		}
 		var cands []*ssa.Package
-		if sp, ok := w.Pkgs[te.Pkg]; ok {
+		if path, ok := w.Aliases[te.Pkg]; ok && w.Pkgs[path] != nil {
+			cands = []*ssa.Package{w.Pkgs[path]}
+		} else if sp, ok := w.Pkgs[te.Pkg]; ok {
 			cands = []*ssa.Package{sp}
 		} else {
 			// prefer what the contract's package imports under that name
